@@ -122,6 +122,49 @@ func runC16(w *World, r *Report) {
 		}
 	}
 
+	// ---- a designation built in steps keeps the earlier paths
+	r.Rule("C16.designation-accumulates", "DesignateNodeWithPath stores a path list that derives from BOTH the option's earlier paths and the new ones", 1)
+	{
+		dnp := w.Fn("compose", "Option.DesignateNodeWithPath")
+		fPaths := w.Field("compose", "Option", "paths")
+		var newP *ssa.Parameter
+		for _, p := range dnp.Params {
+			if sl, ok := p.Type().Underlying().(*types.Slice); ok {
+				if namedOf(sl.Elem()) != nil && namedOf(sl.Elem()).Obj().Name() == "NodePath" {
+					newP = p
+				}
+			}
+		}
+		n := 0
+		for _, fw := range fieldWrites(dnp) {
+			if !sameField(fw.field, fPaths) {
+				continue
+			}
+			n++
+			fromNew := newP != nil && derivesFrom(fw.val, newP)
+			fromOld := false
+			instrs(dnp, func(in ssa.Instruction) {
+				if u, ok := in.(*ssa.UnOp); ok && isLoadOfField(u, fPaths) && derivesFrom(fw.val, u) {
+					fromOld = true
+				}
+			})
+			// a copy() into a zero-length destination copies nothing
+			instrs(dnp, func(in ssa.Instruction) {
+				if c, ok := in.(*ssa.Call); ok && isBuiltin(c, "copy") {
+					if ms, ok := c.Call.Args[0].(*ssa.MakeSlice); ok {
+						if l, ok := constInt(ms.Len); ok && l == 0 {
+							fromOld = false
+						}
+					}
+				}
+			})
+			r.Check(fromNew && fromOld, "C16.designation-accumulates", "DesignateNodeWithPath result keeps old and new paths", fw.in.Pos(), "append(copy of o.paths, path...)", fmt.Sprintf("the stored path list derives from the new paths=%v, from the earlier paths=%v: a designation built in steps forgets the nodes designated earlier (and DesignateNode() with no key turns a designated option into an undesignated one that is broadcast to every node of its type)", fromNew, fromOld))
+		}
+		if n == 0 {
+			r.Fail("C16.designation-accumulates", "DesignateNodeWithPath result keeps old and new paths", dnp.Pos(), "the method no longer stores Option.paths")
+		}
+	}
+
 	// ---- error-arms
 	r.Rule("C16.error-arms", "empty path / unknown node / sub-path of a component / option type mismatch are error returns", 4)
 	arm := func(name string, pred func(iff *ssa.If) (int, bool)) {
